@@ -886,6 +886,10 @@ def midpoint_cases(seed):
                 x = gen_mid(r, forms=[form], pe=pe, side=side)
                 c.append(one(styles[i % 3], [["an", place(FLOAT_FIELDS[i % len(FLOAT_FIELDS)], x)]]))
                 i += 1
+    for j, form in enumerate(MID_FORMS * 2):          # the same many-digit values as Param / Options values (exact decimals)
+        r = core.rng(seed, "C17", "midpoint-param", j)
+        x = gen_mid(r, forms=[form])
+        c.append(one(styles[j % 3], [["p", ["param", "x", x]]] if j % 2 else [["o", ["options", "reltol", x]]]))
     for j in range(24):
         r = core.rng(seed, "C17", "midpoint-all", j)
         g = lambda: gen_mid(r, forms=MID_FORMS)
